@@ -267,6 +267,20 @@ func genRows(r *lib.RNG) []Row {
 	return rows
 }
 
+// large dataset: more than 1024 rows, so that TopN bounds above initHeapSize (1024) are reached
+func genLargeRows(r *lib.RNG) []Row {
+	n := r.Range(1040, 1150)
+	rows := make([]Row, n)
+	for i := range rows {
+		a := vi(int64(r.Range(0, 40)))
+		if r.Chance(1, 15) {
+			a = vnull()
+		}
+		rows[i] = Row{vi(int64(i + 1)), a, vi(int64(r.Range(0, 5))), vs(lib.Pick(r, strAlpha)), vs(lib.Pick(r, strAlpha))}
+	}
+	return rows
+}
+
 func pickBound(r *lib.RNG, n int) int {
 	c := []int{0, 1, 2, n - 1, n, n + 1, n / 2, n + 5}
 	v := lib.Pick(r, c)
@@ -477,15 +491,16 @@ func runDirect(c *lib.Ctx, dc directCase) {
 // ---------- engine cases ----------
 
 type engineCase struct {
-	Kind   string `json:"kind"`
-	Rows   []Row  `json:"rows"`  // base table rows (id,a,b,s,c) in insertion order
-	Table  string `json:"table"` // t (no index) or ti (primary key + secondary indexes)
-	Where  string `json:"where,omitempty"`
-	Keys   []Key  `json:"keys"`
-	Limit  int    `json:"limit"`  // -1: none
-	Offset int    `json:"offset"` // -1: none
-	Query  string `json:"query,omitempty"`
-	Plan   string `json:"plan,omitempty"`
+	Kind    string `json:"kind"`
+	Rows    []Row  `json:"rows"`  // base table rows (id,a,b,s,c) in insertion order
+	Table   string `json:"table"` // t (no index) or ti (primary key + secondary indexes)
+	Where   string `json:"where,omitempty"`
+	Keys    []Key  `json:"keys"`
+	Limit   int    `json:"limit"`              // -1: none
+	Offset  int    `json:"offset"`             // -1: none
+	NoModel bool   `json:"no_model,omitempty"` // large inputs: predicate only (keeps the Coq shard small)
+	Query   string `json:"query,omitempty"`
+	Plan    string `json:"plan,omitempty"`
 }
 
 // projected columns: 0 id, 1 a, 2 b, 3 s, 4 c, 5 e1 = a+b, 6 e2 = -a
@@ -507,7 +522,7 @@ func genEngineQuery(r *lib.RNG, rows []Row) engineCase {
 	if ec.Table == "ti" && r.Chance(1, 3) {
 		// index-shaped key lists: (a), (a,b), (s), (c), (id), same direction
 		desc := r.Bool()
-		shapes := [][]int{{1}, {1, 2}, {3}, {4}, {0}, {1, 2, 0}}
+		shapes := [][]int{{1}, {1, 2}, {1, 2}, {1, 2}, {3}, {4}, {0}, {1, 2, 0}}
 		for _, i := range lib.Pick(r, shapes) {
 			k := engKeyChoices[i]
 			k.Desc = desc
@@ -657,8 +672,24 @@ func runEngine(c *lib.Ctx, s *eng.S, ec engineCase) {
 	if len(bag) >= 2 {
 		key = fmt.Sprintf("e|%s|%v", q, ec.Rows)
 	}
-	term := fmt.Sprintf("CEngine %s %s %s %d %s %s", coqKeys(ec.Keys), coqRows(bag), lim, m, coqRows(out), lib.CoqBool(exact))
-	id := c.Case(term, ec, key)
+	var id int
+	if ec.NoModel {
+		id = c.CaseNoModel(ec, key)
+	} else {
+		term := fmt.Sprintf("CEngine %s %s %s %d %s %s", coqKeys(ec.Keys), coqRows(bag), lim, m, coqRows(out), lib.CoqBool(exact))
+		id = c.Case(term, ec, key)
+	}
+	if kind == "index" && len(ec.Keys) >= 2 && ec.Keys[0].Col == 1 && ec.Keys[1].Col == 2 {
+		nulls := 0
+		for _, r := range bag {
+			if r[1].Null {
+				nulls++
+			}
+		}
+		if nulls >= 2 {
+			c.Count("index_ab_with_null_leading_column")
+		}
+	}
 	c.PredChecked()
 	if why := validSlice(ec.Keys, bag, m, n, out); why != "" {
 		c.PredFail(id, "engine/"+why+"/"+kind+"/"+shape,
@@ -667,6 +698,29 @@ func runEngine(c *lib.Ctx, s *eng.S, ec engineCase) {
 	// the unordered result must be the table's rows that pass the filter: sanity of the bag itself
 	if ec.Where == "" && len(bag) != len(ec.Rows) {
 		c.PredFail(id, "engine/bag-size/"+kind, fmt.Sprintf("%s returned %d rows for a table of %d", ec.sql(false), len(bag), len(ec.Rows)), ec)
+	}
+}
+
+// runLarge: > 1024 rows; LIMIT+OFFSET above 1024 (top-N heap beyond its initial capacity), on both tables.
+func runLarge(c *lib.Ctx, r *lib.RNG) {
+	rows := genLargeRows(r)
+	n := len(rows)
+	keysA := []Key{{Col: 1, Ty: KInt, Expr: "a", Desc: r.Bool()}, {Col: 2, Ty: KInt, Expr: "b", Desc: r.Bool()}}
+	runDirect(c, directCase{Kind: "direct", Keys: keysA, Rows: rows, N: lib.Pick(r, []int{1025, 1030, n - 1, n + 3}), M: 1020})
+	s := setup(rows)
+	c.Count("large_dataset")
+	for _, lo := range [][2]int{{10, 1020}, {n + 60, -1}, {1030, -1}, {3, 1024}, {1025, 5}} {
+		for _, tb := range []string{"t", "ti"} {
+			ks := keysA
+			if tb == "ti" {
+				d := r.Bool()
+				ks = []Key{{Col: 1, Ty: KInt, Expr: "a", Desc: d}, {Col: 2, Ty: KInt, Expr: "b", Desc: d}}
+				if r.Bool() {
+					ks = []Key{{Col: 3, Ty: KBin, Expr: "s", Desc: r.Bool()}, {Col: 2, Ty: KInt, Expr: "b", Desc: r.Bool()}}
+				}
+			}
+			runEngine(c, s, engineCase{Kind: "engine", Rows: rows, Table: tb, Keys: ks, Limit: lo[0], Offset: lo[1], NoModel: !(lo[0] == 10 && tb == "t")})
+		}
 	}
 }
 
@@ -719,7 +773,26 @@ func main() {
 		} {
 			runEngine(c, s, ec)
 		}
-		for c_i := 9; c_i < c.N; {
+		nullLead := []Row{
+			{i64(1), vnull(), i64(5), vs("a"), vs("a")}, {i64(2), vnull(), i64(2), vs("b"), vs("b")}, {i64(3), vnull(), vnull(), vs("c"), vs("c")},
+			{i64(4), i64(1), i64(3), vs("a"), vs("A")}, {i64(5), vnull(), i64(4), vs("a"), vs("B")}, {i64(6), i64(1), i64(1), vs("b"), vs("b")},
+			{i64(7), i64(0), i64(9), vs("b"), vs("b")},
+		}
+		s2 := setup(nullLead)
+		for _, d := range []bool{false, true} {
+			for _, lo := range [][2]int{{-1, -1}, {2, -1}, {2, 1}, {3, 2}, {1, -1}} {
+				runEngine(c, s2, engineCase{Kind: "engine", Rows: nullLead, Table: "ti",
+					Keys: []Key{{Col: 1, Ty: KInt, Expr: "a", Desc: d}, {Col: 2, Ty: KInt, Expr: "b", Desc: d}}, Limit: lo[0], Offset: lo[1]})
+			}
+		}
+		largeSeen := false
+		for c_i := 19; c_i < c.N; {
+			if !largeSeen && c_i > c.N/2 {
+				largeSeen = true
+				runLarge(c, c.R.Fork())
+				c_i += 11
+				continue
+			}
 			r := c.R.Fork()
 			dc := genDirect(r)
 			runDirect(c, dc)
